@@ -12,10 +12,12 @@ CHECKS = {
               "replayed into the real batch_tasks, and those results plus seeded random calls (n to 1e7) and the tasks a recording "
               "pool receives from the public calls (marginal_ln_likelihood / rejection_sample on the cache paths; natural order, "
               "n_prior_samples, and randomized order with the index array taken from the recorded shuffle) are validated by the "
-              "PartitionTrace monitor against Partition (validity, not the current algorithm)."),
+              "PartitionTrace monitor against Partition (validity, not the current algorithm). That the validity the monitor checks gives "
+              "what the property promises (every requested row in exactly one task, nothing else) is proved for EVERY n, start and "
+              "task list with the TLA+ proof system (spec/PartitionProof.tla, 139 obligations, re-checked by tlapm on every run)."),
         design_ref="DESIGN.md section 3 C16",
         note="Trusted: TLC/SANY, JSON transport of ints < 2^31, numpy slicing. Not covered: n or start_idx >= 2^31.",
-        technique="TLA+ spec (Partition/PartitionAlg) model-checked with TLC; spec->code replay of TLC-enumerated inputs; code->spec trace validation",
+        technique="TLA+ spec (Partition/PartitionAlg) model-checked with TLC; validity => exactly-once proved with TLAPS; spec->code replay of TLC-enumerated inputs; code->spec trace validation",
     ),
     "C15": dict(
         category="model_checking",
